@@ -12,6 +12,10 @@ A case is JSON:
    "children": [{"pre": k, "prog": BLOCK}, ...]}          (optional child tasks, see ["spawn", j])
   BLOCK = {"d": null|int, "body": [ITEM, ...]}
   ITEM  = ["s0"] | ["s", k] | ["aw", j] | ["blk", BLOCK]
+        | ["ga", [j, ...]]  `await asyncio.gather(aux_j, ...)`      (the block is suspended on gather's outer future)
+        | ["sh", j]         `await asyncio.shield(aux_j)`           (… on shield's outer future)
+        | ["fu", i]         `await fut_i`: a bare `loop.create_future()` owned by the environment, which resolves it
+                            at tick `futs[i]` (case key "futs": [tick, ...])
         | ["tblk", BLOCK]  nested block whose TimeoutError is caught by the enclosing body, which then goes on
         | ["spawn", j]   create child Python task j *here* (possibly inside timed blocks); the child sleeps
                          `pre` ticks and then runs its own block tree with its own timeouts
@@ -175,6 +179,21 @@ class Runner:
             r = await self.aux[item[1]]
             if r != ("aux", item[1]):
                 self.fail("awaited-task-result", f"aux {item[1]} returned {r!r}")
+        elif kind == "ga":
+            self.tags.add("await-gather")
+            r = await asyncio.gather(*[self.aux[j] for j in item[1]])
+            if r != [("aux", j) for j in item[1]]:
+                self.fail("awaited-task-result", f"gather returned {r!r}")
+        elif kind == "sh":
+            self.tags.add("await-shield")
+            r = await asyncio.shield(self.aux[item[1]])
+            if r != ("aux", item[1]):
+                self.fail("awaited-task-result", f"shield returned {r!r}")
+        elif kind == "fu":
+            self.tags.add("await-bare-future")
+            r = await self.futs[item[1]]
+            if r != ("fut", item[1]):
+                self.fail("awaited-task-result", f"future {item[1]} gave {r!r}")
         elif kind == "join":
             r = await self.children[item[1]]
             if r != ("child", item[1]):
@@ -477,7 +496,20 @@ class Runner:
         self.horizon = 5 + max_time(case)
         undo = self.patch()
 
+        def resolver(i):
+            def resolve():
+                f = self.futs[i]
+                if f.cancelled():
+                    self.fut_lost.append(i)       # somebody cancelled a future that is the environment's
+                elif not f.done():
+                    f.set_result(("fut", i))
+            return resolve
+
         async def boot():
+            self.futs, self.fut_lost = [], []
+            for i, tick in enumerate(case.get("futs", [])):
+                self.futs.append(loop.create_future())
+                loop.call_later(tick, resolver(i))
             self.aux = []
             for j, k in enumerate(case.get("aux", [])):
                 co = self.aux_task(j, k)
@@ -524,6 +556,13 @@ class Runner:
                 break
             if not t.done() or t.cancelled() or t.exception() is not None:
                 self.fail("awaited-task-cancelled", f"aux task {j}: done={t.done()} cancelled={t.cancelled()}")
+        for i, f in enumerate(self.futs):
+            if "env-cancel" in self.tags:
+                break
+            if i in self.fut_lost or f.cancelled() or not f.done():
+                self.fail("awaited-future-cancelled",
+                          f"future {i} (created and resolved by the environment, only awaited inside the block): "
+                          f"cancelled={f.cancelled()} done={f.done()}")
         for j, t in self.children.items():
             if not t.done() or t.cancelled() or t.exception() is not None:
                 self.fail("child-task-cancelled", f"child task {j}: done={t.done()} cancelled={t.cancelled()}")
@@ -546,7 +585,8 @@ def max_time(case):
                 s += tot(it[1])
         return s
     return (tot(case["prog"]) + sum(case.get("aux", [])) + 3
-            + sum(c.get("pre", 0) + tot(c["prog"]) + 3 for c in case.get("children", [])))
+            + sum(c.get("pre", 0) + tot(c["prog"]) + 3 for c in case.get("children", []))
+            + sum(case.get("futs", [])))
 
 
 # ---------------------------------------------------------------------------------------
